@@ -18,7 +18,7 @@ import (
 
 // C16 — Parsing is zero-copy and allocation-free in steady state.
 
-const c16Rule = "well-formed frames of every PayloadID class and address family from the frame generator, with the source rewritten to one of six situations (already tracked client, own MAC, router MAC with global source, multicast source, off-LAN source, newly seen client); oracle 1: every view returned by Parse is the input buffer at the reference offset (pointer identity, write-through in both directions, nothing beyond the frame); oracle 2: testing.AllocsPerRun(50, Parse) == 0 once the source is tracked, also for a station alternating between 2..5 of its own addresses (IPv4, link-local, two global, ULA). non-trivial = a frame whose reference decoding entered the network layer; distinct by (class, situation, hash of the bytes)"
+const c16Rule = "well-formed frames of every PayloadID class and address family from the frame generator, with the source rewritten to one of six situations (already tracked client, own MAC, router MAC with global source, multicast source, off-LAN source, newly seen client); oracle 1: every view returned by Parse is the input buffer at the reference offset (pointer identity, write-through in both directions, nothing beyond the frame); oracle 2: testing.AllocsPerRun(50, Parse) == 0 once the source is tracked, also for a station alternating between 2..5 of its own addresses (IPv4, link-local, two global, ULA), for 2..4 tracked stations taking turns through a ring of 1..3 receive buffers (same *Host afterwards), and for echo messages after earlier pings of the process. non-trivial = a frame whose reference decoding entered the network layer; distinct by (class, situation, hash of the bytes)"
 
 type c16Case struct {
 	Data      drv.Hex `json:"data"`
